@@ -17,6 +17,7 @@ func thorough() bool { return os.Getenv("VERIF_TIER") == "thorough" }
 // checkFile is the common driver for properties over generated file programs.
 func checkFile(t *testing.T, prop string, gen func(rt *rapid.T) *harness.Program, run func(p *harness.Program) Result) {
 	rec := harness.NewRecorder(prop, "file")
+	FilterKnown = true
 	completed := false
 	defer func() { rec.Flush(completed) }()
 	rapid.Check(t, func(rt *rapid.T) {
